@@ -333,3 +333,65 @@ func c02Parked(x *X) {
 func init() {
 	register(&Scenario{Prop: "C02", Name: "c02/transport-parked-connection", Quick: []Bound{{0, 0}, {1, 0}}, Thorough: []Bound{{2, 0}}, Body: c02Parked, MaxSteps: 200000, BudgetQ: 15})
 }
+
+// the Client (load balancer) in front of a RoundTripper that, like the Transport, has already
+// signalled completion when Go / RoundTrip return: four calls in a row while one (or every) target
+// has just gone away and is still on the alive list.  Every Call is signalled exactly once, on the
+// channel the caller gave, as the object Go / RoundTrip returned, and its Error does not change
+// afterwards.
+func c02ClientCompletion(x *X) {
+	sched := rpc.Scheduling(x.Choose(3))
+	form := []int{cfGo, cfRoundTrip}[x.Choose(2)]
+	down := x.Choose(4) // nobody / a / b / both
+	capa := 1 + x.Choose(2)*3
+	s := newCliSys(x, sched, "a", "b")
+	s.rt.up["a"], s.rt.up["b"] = true, true
+	s.tick(2)
+	if down&1 != 0 {
+		s.rt.up["a"] = false
+	}
+	if down&2 != 0 {
+		s.rt.up["b"] = false
+	}
+	out := ""
+	for i := 0; i < 4; i++ {
+		done := make(chan *rpc.Call, capa)
+		var call *rpc.Call
+		vs.GoNamed(fmt.Sprintf("caller%d", i), func() {
+			if form == cfGo {
+				call = s.c.Go("X.Y", nil, nil, done)
+			} else {
+				call = s.c.RoundTrip(&rpc.Call{ServiceMethod: "X.Y", Done: done})
+			}
+		})
+		vs.Quiesce()
+		if call == nil {
+			x.Fail("C02/client-call-hangs", "Client.%s did not return (targets down: %d)", cfNames[form], down)
+			break
+		}
+		n := len(done)
+		var first *rpc.Call
+		var firstErr error
+		if n > 0 {
+			first = <-done
+			firstErr = first.Error
+		}
+		switch {
+		case n == 0:
+			x.Fail("C02/done-signals=0/client", "Client.%s returned a call that was never signalled on its Done channel (capacity %d, targets down: %d, call %d)", cfNames[form], capa, down, i)
+		case first != call:
+			x.Fail("C02/foreign-call-on-done/client", "the Done channel given to Client.%s delivered a call (error %v) that is not the one it returned (capacity %d, targets down: %d, call %d)", cfNames[form], firstErr, capa, down, i)
+		case n > 1:
+			x.Fail(fmt.Sprintf("C02/done-signals=%d/client", n), "the call of Client.%s was signalled %d times (targets down: %d, call %d)", cfNames[form], n, down, i)
+		case call.Error != firstErr:
+			x.Fail("C02/error-changed-after-signal/client", "the call's Error was %v when it was signalled and is %v now", firstErr, call.Error)
+		}
+		out += fmt.Sprintf(" %d:%s", n, errStr(call.Error))
+	}
+	x.Outcome("sched=%d form=%s down=%d cap=%d%s", sched, cfNames[form], down, capa, out)
+	s.close()
+}
+
+func init() {
+	register(&Scenario{Prop: "C02", Name: "c02/client-completion", Quick: []Bound{{0, 0}, {1, 0}}, Thorough: []Bound{{2, 0}}, Body: c02ClientCompletion, BudgetQ: 15, MinHB: 1})
+}
